@@ -79,6 +79,16 @@ def constant_fold_expr(expr: Expression, cur_mod_id: str) -> ConstantValue | Non
 def constant_fold_binary_op(
     op: str, left: ConstantValue, right: ConstantValue
 ) -> ConstantValue | None:
+    try:
+        return _constant_fold_binary_op(op, left, right)
+    except (OverflowError, MemoryError):
+        # The operation also fails at runtime (operand too large); don't fold.
+        return None
+
+
+def _constant_fold_binary_op(
+    op: str, left: ConstantValue, right: ConstantValue
+) -> ConstantValue | None:
     if isinstance(left, int) and isinstance(right, int):
         return constant_fold_binary_int_op(op, left, right)
 
